@@ -2,6 +2,37 @@
 from . import common, tables, pair, likely
 
 
+def generator_byte_order(rep, order):
+    """GEN-ENDIAN: the generators are not run (their output equalling the checked-in files is an execution fact, declined), but one structural
+    necessary condition is read from their MIR in the all-features build, where the binaries are compiled: every explicit byte-order
+    conversion they make uses the order the library packs and unpacks subtags with (PAIR-RAW) - a key or value printed in another order is
+    a row the lookups can never find."""
+    import re
+    try:
+        f = common.program('K3').facts
+    except Exception as ex:
+        rep.notes.append('generator binaries not analysed: %s' % str(ex)[:120])
+        return
+    want = {'little': 'le', 'big': 'be'}.get(order, 'le')
+    n, bad = 0, []
+    for cn, c in sorted(f.crates.items()):
+        if not cn.startswith('generate_'):
+            continue
+        for name, b in sorted(c.bodies.items()):
+            for blk in b['mir']['blocks']:
+                t = blk['term']
+                if t['k'] != 'call':
+                    continue
+                m = re.search(r'::(from|to)_(le|be|ne)_bytes$', t['r'] or t['f'] or '')
+                if m:
+                    n += 1
+                    if m.group(2) != want:
+                        bad.append('%s converts with %s_%s_bytes at %s; the library packs subtags %s-endian' % (name, m.group(1), m.group(2), t.get('sp'), order))
+    if n or bad:
+        rep.ob('gen:byte-order', 'GEN-ENDIAN', 'generate_*', '-', 'every explicit byte-order conversion in the generator binaries uses the byte order of the library', not bad,
+               detail='\n'.join(bad[:4]), how='%d conversion sites in the generator binaries (all-features build)' % n)
+
+
 def run(tier, replay=None):
     rep = common.new_report('C18', tier, 'proof')
     prog = common.program('K1')
@@ -19,6 +50,7 @@ def run(tier, replay=None):
             nlook += 1
             rep.add(o)
     rep.floor('table searches in maximize', nlook, 6)
+    generator_byte_order(rep, order)
     rep.count('table rows compared', nrows)
     rep.count('direction elements compared', nel)
     rep.count('CLDR layout locales read', len(locales))
